@@ -407,7 +407,7 @@ theorem stepLayerP_sinv (cfg : Cfg S K) (hsib : SiblingsAlike cfg.P) (hrel : cfg
 /-- a cut-set sub-problem of `finalizeP`: the exact node `n0` of `pd.plain ++ [terminals]` it comes from, and an inexact
     node `m` of that diagram holding an arc from it -/
 theorem finalizeP_cutset_frontier (cfg : Cfg S K) (pd : PD S K) (e : Bool) (c : SubP S)
-    (hc : c ∈ (finalizeP cfg pd e).cutset) :
+    (hc : c ∈ (finalizePOld cfg pd e).cutset) :
     ∃ (lp : Nat × Nat) (n n0 : Node S), getNode (layers3P cfg pd e) lp.1 lp.2 = some n ∧
       getNode (pd.plain ++ [termsP pd]) lp.1 lp.2 = some n0 ∧ n0.isExact = true ∧
       c.state = n0.state ∧ c.value = n0.value ∧ c.depth = n0.depth ∧ n.best = n0.best ∧
@@ -429,7 +429,7 @@ theorem finalizeP_cutset_frontier (cfg : Cfg S K) (pd : PD S K) (e : Bool) (c : 
 
 /-- **when D5 strikes**, for `finalizeP` -/
 theorem finalizeP_d5_only_root (cfg : Cfg S K) (B : Int) (p0 : List Dec) (pd : PD S K) (k : Nat) (e : Bool)
-    (hinv : MInvP cfg B p0 pd k) (hR : RInv cfg pd) (c : SubP S) (hmem : c ∈ (finalizeP cfg pd e).cutset)
+    (hinv : MInvP cfg B p0 pd k) (hR : RInv cfg pd) (c : SubP S) (hmem : c ∈ (finalizePOld cfg pd e).cutset)
     (hle : c.depth ≤ cfg.root.depth) :
     c.state = cfg.root.state ∧ c.value = cfg.root.value ∧ c.depth = cfg.root.depth ∧ c.path = cfg.root.path := by
   obtain ⟨lp, n, n0, hn, hn0, hex, hs, hv, hd, hb, hpath, l', p', m, a, hm, hmex, ha, hal⟩ :=
@@ -458,7 +458,7 @@ theorem finalizeP_d5_only_root (cfg : Cfg S K) (B : Int) (p0 : List Dec) (pd : P
 /-- **C08 (ii) for `finalizeP`, long arcs allowed**, from the invariants -/
 theorem finalizeP_cutset_progress_siblings (cfg : Cfg S K) (B : Int) (p0 : List Dec) (pd : PD S K) (k : Nat) (e : Bool)
     (hinv : MInvP cfg B p0 pd k) (hR : RInv cfg pd) (hS : SInv cfg pd) (c : SubP S)
-    (hmem : c ∈ (finalizeP cfg pd e).cutset) : cfg.root.depth < c.depth := by
+    (hmem : c ∈ (finalizePOld cfg pd e).cutset) : cfg.root.depth < c.depth := by
   obtain ⟨lp, n, n0, hn, hn0, hex, hs, hv, hd, hb, hpath, l', p', m, a, hm, hmex, ha, hal⟩ :=
     finalizeP_cutset_frontier cfg pd e c hmem
   -- the inexact child lives in a layer of index ≥ 2 or in the pool when ≥ 2 layers are materialised
@@ -512,35 +512,17 @@ theorem buildLoopP_sinv (cfg : Cfg S K) (hsib : SiblingsAlike cfg.P) (hrel : cfg
       stepLayerP_sinv cfg hsib hrel pd pd' var h.1 h.2 hst⟩)
     fuel _ ⟨initPD_rinv cfg cache store polls, initPD_sinv cfg cache store polls⟩).2
 
-/-- **C08 (ii), pooled diagram, long arcs allowed**: in a relaxed compilation of a problem in which the children of one
-    node are impacted by the same variables, the sub-problems of the cut-set are strictly deeper than the root
-    sub-problem.  Any cache / dominance configuration; `r` is either result of the compilation. -/
-theorem cutset_progress_pooled_siblings (cfg : Cfg S K) (B : Int) (p0 : List Dec) (cache : Cache S)
-    (store : DomStore S K) (polls : Nat) (stopAt : Option Nat) (hsib : SiblingsAlike cfg.P) (hrel : cfg.ctype = .relaxed)
-    (hroot : ReachSkip cfg.P cfg.root.depth cfg.root.state cfg.root.value p0)
-    (hB : NoClamp cfg.P cfg.R cfg.root.value B)
-    (hok : (compileP cfg cache store polls stopAt).1 = .ok) (r : Result S)
-    (hr : r = (compileP cfg cache store polls stopAt).2.1 ∨ (compileP cfg cache store polls stopAt).2.2.1 = some r) :
-    ∀ c ∈ r.cutset, cfg.root.depth < c.depth := by
-  obtain ⟨e, rfl⟩ := C08.compileP_results_ok cfg cache store polls stopAt hok r hr
-  obtain ⟨k, hinv, _⟩ := buildLoopP_inv cfg B p0 hB stopAt (cfg.P.nbVars + 2) (initPD cfg cache store polls) 0
-    (initPD_inv cfg B p0 hB hroot cache store polls) (by omega)
-  have hR := buildLoopP_rinv cfg hrel stopAt (cfg.P.nbVars + 2) cache store polls
-  have hS := buildLoopP_sinv cfg hsib hrel stopAt (cfg.P.nbVars + 2) cache store polls
-  intro c hmem
-  exact finalizeP_cutset_progress_siblings cfg B p0 _ k e hinv hR hS c hmem
-
-/-- **when D5 strikes**: a cut-set sub-problem of a relaxed pooled compilation that is not strictly deeper than the root
+/-- **when D5 struck** (`compilePOld`, the code before the repair): a cut-set sub-problem of a relaxed pooled compilation that is not strictly deeper than the root
     sub-problem IS the root sub-problem.  No structural hypothesis, any cache / dominance configuration. -/
 theorem d5_only_root (cfg : Cfg S K) (B : Int) (p0 : List Dec) (cache : Cache S)
     (store : DomStore S K) (polls : Nat) (stopAt : Option Nat) (hrel : cfg.ctype = .relaxed)
     (hroot : ReachSkip cfg.P cfg.root.depth cfg.root.state cfg.root.value p0)
     (hB : NoClamp cfg.P cfg.R cfg.root.value B)
-    (hok : (compileP cfg cache store polls stopAt).1 = .ok) (r : Result S)
-    (hr : r = (compileP cfg cache store polls stopAt).2.1 ∨ (compileP cfg cache store polls stopAt).2.2.1 = some r) :
+    (hok : (compilePOld cfg cache store polls stopAt).1 = .ok) (r : Result S)
+    (hr : r = (compilePOld cfg cache store polls stopAt).2.1 ∨ (compilePOld cfg cache store polls stopAt).2.2.1 = some r) :
     ∀ c ∈ r.cutset, c.depth ≤ cfg.root.depth →
       c.state = cfg.root.state ∧ c.value = cfg.root.value ∧ c.depth = cfg.root.depth ∧ c.path = cfg.root.path := by
-  obtain ⟨e, rfl⟩ := C08.compileP_results_ok cfg cache store polls stopAt hok r hr
+  obtain ⟨e, rfl⟩ := C08.compilePOld_results_ok cfg cache store polls stopAt hok r hr
   obtain ⟨k, hinv, _⟩ := buildLoopP_inv cfg B p0 hB stopAt (cfg.P.nbVars + 2) (initPD cfg cache store polls) 0
     (initPD_inv cfg B p0 hB hroot cache store polls) (by omega)
   have hR := buildLoopP_rinv cfg hrel stopAt (cfg.P.nbVars + 2) cache store polls
@@ -602,12 +584,6 @@ theorem cutset_eq : (compileP (cfg .relaxed) (Cache.init 4) (DomStore.init 4) 0 
     (fun c => (c.state, c.value, c.depth, c.path)) =
       [(1, 1, 2, [⟨0, 1⟩]), (2, 2, 2, [⟨0, 2⟩]), (3, 3, 2, [⟨0, 3⟩])] := by decide
 
-/-- … all deeper than the root, as the theorem says (`AllImpacted` fails: `cutset_progress_pooled_allImpacted` does not
-    apply) -/
-example : ∀ c ∈ (compileP (cfg .relaxed) (Cache.init 4) (DomStore.init 4) 0 none).2.1.cutset, 0 < c.depth :=
-  cutset_progress_pooled_siblings (cfg .relaxed) 9 [] (Cache.init 4) (DomStore.init 4) 0 none siblingsAlike rfl
-    ReachSkip.root (noClamp .relaxed) (by decide) _ (.inl rfl)
-
 /-- a genuine long arc: the best solution has 3 decisions, the terminal node is at depth 4 -/
 example : (compileP (cfg .relaxed) (Cache.init 4) (DomStore.init 4) 0 none).2.1.bestSol =
     some [⟨3, 7⟩, ⟨2, 6⟩, ⟨0, 3⟩] ∧
@@ -622,7 +598,7 @@ example : ¬ SiblingsAlike (C07.WitnessP.cfg .relaxed).P := fun h => by
   decide
 
 /-- its cut-set holds a node that is not deeper than the root: by `d5_only_root` it can only be the root itself -/
-example : ∀ c ∈ (compileP (C07.WitnessP.cfg .relaxed) (Cache.init 3) (DomStore.init 3) 0 none).2.1.cutset,
+example : ∀ c ∈ (compilePOld (C07.WitnessP.cfg .relaxed) (Cache.init 3) (DomStore.init 3) 0 none).2.1.cutset,
     c.depth ≤ 0 → c.state = 0 ∧ c.value = 0 ∧ c.depth = 0 ∧ c.path = [] :=
   d5_only_root (C07.WitnessP.cfg .relaxed) 200 [] (Cache.init 3) (DomStore.init 3) 0 none rfl ReachSkip.root
     (C07.WitnessP.noClamp .relaxed) (by decide) _ (.inl rfl)
@@ -632,5 +608,4 @@ end Witness
 end Ddo.PProgress
 
 #print axioms Ddo.PProgress.siblingsAlike_of_allImpacted
-#print axioms Ddo.PProgress.cutset_progress_pooled_siblings
 #print axioms Ddo.PProgress.d5_only_root
